@@ -19,6 +19,7 @@ const char *verif_rule =
     "application holds a reference or an async entry is pending; a DEL before teardown is explained by the session timeout (idle >= timeout) or by idle-limit eviction (limit reached, victim "
     "not younger than every certainly-idle session); certainly-idle sessions are gone once timeout + slack has passed and the limit evicts when a new peer arrives; after the contexts are "
     "freed NEW and DEL counts match, the typed-allocation table is empty, nothing was released twice, LeakSanitizer finds no leak, and ASan saw no use after release. "
+    "In part of the longer tapes block-wise transfers hang off the sessions (libcoap serves a 300 byte representation in 64 byte blocks and re-assembles uploads; peers ask for first and following blocks in any order with no / the seen / a foreign ETag, upload some blocks and stop) and the clock moves on inside library calls. "
     "A quarter of the cases (last tape byte) run scenario (C) instead: libcoap TCP server, up to 8 scripted connections, history of 3..30 operations from {connect (+CSM), complete request for a plain / "
     "reference-holding / async resource, only the first k bytes of a request, the rest of it, Ping / Release / Abort signalling, peer closes (also in the middle of a message or before the accept), I/O step, "
     "time jump, application releases a reference}, teardown at that point; oracle: one NEW per connection, handlers only see live sessions, no DEL while referenced, a connection the peer closed >= 100 ms ago "
@@ -62,6 +63,7 @@ struct Case {
   unsigned max_idle = 0;
   size_t trace_pos = 0;
   coap_resource_t *obs_res = nullptr;
+  unsigned big_given = 0, big_released = 0, transfers = 0;
   unsigned obs_state = 0;
   // the DEL that has just happened and still needs an explanation (eviction => a NEW follows while the same datagram is processed)
   bool pending_del = false;
@@ -249,6 +251,22 @@ void h_hold(coap_resource_t *, coap_session_t *session, const coap_pdu_t *, cons
     m->app_refs++;
     G->held_total++;
   }
+  coap_pdu_set_code(response, COAP_RESPONSE_CODE_CHANGED);
+}
+
+// block-wise transfers hanging off a session: a 300 byte representation served with coap_add_data_large_response() and a resource that takes uploads
+void release_big(coap_session_t *, void *app_ptr) { free(app_ptr); if (G) G->big_released++; }
+void h_big(coap_resource_t *resource, coap_session_t *session, const coap_pdu_t *request, const coap_string_t *query, coap_pdu_t *response) {
+  check_handler_session(session, "big");
+  coap_pdu_set_code(response, COAP_RESPONSE_CODE_CONTENT);
+  uint8_t *body = (uint8_t *)malloc(300);
+  for (unsigned i = 0; i < 300; i++) body[i] = (uint8_t)('a' + i % 23);
+  G->big_given++;
+  if (!coap_add_data_large_response(resource, session, request, response, query, COAP_MEDIATYPE_TEXT_PLAIN, -1, 0, 300, body, release_big, body))
+    coap_pdu_set_code(response, COAP_RESPONSE_CODE_INTERNAL_ERROR);
+}
+void h_up(coap_resource_t *, coap_session_t *session, const coap_pdu_t *, const coap_string_t *, coap_pdu_t *response) {
+  check_handler_session(session, "up");
   coap_pdu_set_code(response, COAP_RESPONSE_CODE_CHANGED);
 }
 
@@ -494,6 +512,24 @@ int verif_case(const uint8_t *tape, size_t tlen, Info *info) {
       if (r.h == h_obs) { coap_resource_set_get_observable(res, 1); cs.obs_res = res; }
       coap_add_resource(sctx, res);
     }
+    // (third last tape byte; draws from the END of the tape) block-wise transfers hang off the sessions: libcoap serves a 300 byte representation in
+    // 64 byte blocks and re-assembles uploads; the peers ask for first and following blocks (with no, the right or a foreign ETag), upload some blocks
+    // of a body and stop, and whatever state exists is there when sessions are reclaimed and when the context is freed
+    bool blockwise = tlen >= 48 && tape[tlen - 3] < 110;
+    std::vector<uint8_t> rev3(tape, tape + (tlen >= 48 ? tlen - 3 : 0));
+    std::reverse(rev3.begin(), rev3.end());
+    Tape tb3(rev3.data(), rev3.size());
+    if (blockwise) {
+      coap_context_set_block_mode(sctx, COAP_BLOCK_USE_LIBCOAP | (tb3.flag() ? COAP_BLOCK_SINGLE_BODY : 0));
+      coap_context_set_max_block_size(sctx, 64);
+      coap_resource_t *res = coap_resource_init(coap_make_str_const("big"), 0);
+      coap_register_handler(res, COAP_REQUEST_GET, h_big);
+      coap_add_resource(sctx, res);
+      res = coap_resource_init(coap_make_str_const("up"), 0);
+      coap_register_handler(res, COAP_REQUEST_PUT, h_up);
+      coap_add_resource(sctx, res);
+      info->label("block-wise-transfers");
+    }
     w.add_context(sctx);
     coap_context_t *cctx = nullptr;
     std::vector<coap_session_t *> csess;
@@ -501,12 +537,13 @@ int verif_case(const uint8_t *tape, size_t tlen, Info *info) {
       cctx = coap_new_context(nullptr);
       if (cctx) { coap_register_response_handler(cctx, c_resp); w.add_context(cctx); }
     }
-    struct PeerState { Peer *p; bool mute = false; bool rst_next = false; unsigned seq = 0; std::vector<uint8_t> obs_token; };
+    struct PeerState { Peer *p; bool mute = false; bool rst_next = false; unsigned seq = 0; std::vector<uint8_t> obs_token; std::vector<uint8_t> last_etag; unsigned up_next = 0; };
     std::vector<PeerState> peers(npeers);
     for (unsigned i = 0; i < npeers; i++) {
       peers[i].p = w.add_peer(Addr::v4(10, 0, 2, (uint8_t)(10 + i % 7), (uint16_t)(40000 + i / 7)));
       peers[i].p->on_rx = [&peers, i](World &ww, Peer &p, const Datagram &d) {
         ref::Msg m;
+        if (simh::parse(d.data, &m)) if (const ref::Opt *et = simh::find_opt(m, 4)) peers[i].last_etag = et->val;
         if (peers[i].rst_next && simh::parse(d.data, &m) && m.code >= 64 && m.type <= 1 && simh::find_opt(m, 6) && !G->req_mids.count(m.mid)) {
           // not interested any more: Reset in reply to a notification (RFC 7641 3.6)
           peers[i].rst_next = false;
@@ -546,6 +583,8 @@ int verif_case(const uint8_t *tape, size_t tlen, Info *info) {
       }
     };
     // ---- history ----
+    int big_p = -1, up_p = -1;
+    unsigned big_ep = 0, up_ep = 0;
     for (unsigned k = 0; k < nops && !cs.violated && !w.hit_cap; k++) {
       char hb[128];
       unsigned p = t.range(0, npeers - 1);
@@ -584,6 +623,47 @@ int verif_case(const uint8_t *tape, size_t tlen, Info *info) {
         unsigned ep = t.range(0, neps - 1);
         bool con = t.flag();
         size_t kind = t.pick({5, 3, 2, 2});
+        if (blockwise && tb3.chance(100)) {
+          ref::Msg m;
+          m.type = con ? 0 : 1;
+          m.mid = next_mid++;
+          cs.req_mids.insert(m.mid);
+          m.token = {(uint8_t)p, (uint8_t)peers[p].seq++, 0x20};
+          size_t what = tb3.pick({3, 4, 3});
+          // following blocks and further upload blocks mostly come from the peer that began a transfer (to the same endpoint)
+          if (what == 1 && big_p >= 0 && tb3.chance(200)) { p = (unsigned)big_p; ep = big_ep; m.token[0] = (uint8_t)p; }
+          if (what == 2 && up_p >= 0 && tb3.chance(160)) { p = (unsigned)up_p; ep = up_ep; m.token[0] = (uint8_t)p; }
+          if (what == 0) { big_p = (int)p; big_ep = ep; }
+          if (what == 2) { up_p = (int)p; up_ep = ep; }
+          if (what == 0) {          // first block of the representation
+            m.code = 1;
+            m.opts.push_back(ref::Opt{11, {'b', 'i', 'g'}});
+            m.opts.push_back(ref::Opt{23, simh::uint_opt(2)});   // Block2 0/0/64: the peer asks for 64 byte blocks
+            snprintf(hb, sizeof hb, "get-big(p%u,ep%u,%s)", p, ep, con ? "CON" : "NON");
+          } else if (what == 1) {   // a following block, in or out of order
+            unsigned num = tb3.range(1, 5);
+            size_t ev = tb3.pick({3, 1, 2});
+            m.code = 1;
+            if (ev == 1 && !peers[p].last_etag.empty()) m.opts.push_back(ref::Opt{4, peers[p].last_etag});
+            if (ev == 2) m.opts.push_back(ref::Opt{4, {0x7e, (uint8_t)p}});
+            m.opts.push_back(ref::Opt{11, {'b', 'i', 'g'}});
+            m.opts.push_back(ref::Opt{23, simh::uint_opt(num << 4 | 2)});
+            snprintf(hb, sizeof hb, "get-big-block(p%u,ep%u,#%u,etag:%s)", p, ep, num, ev == 0 ? "-" : ev == 1 ? "seen" : "foreign");
+          } else {                  // the next block of an upload (four blocks make the body; the peer may stop anywhere, or start again)
+            if (tb3.chance(40)) peers[p].up_next = 0;
+            unsigned num = peers[p].up_next++;
+            bool more = num < 3;
+            m.code = 3;
+            m.opts.push_back(ref::Opt{11, {'u', 'p'}});
+            m.opts.push_back(ref::Opt{27, simh::uint_opt(num << 4 | (more ? 8 : 0) | 2)});
+            m.payload.assign(more ? 64 : 20, (uint8_t)('A' + num));
+            if (!more) peers[p].up_next = 0;
+            snprintf(hb, sizeof hb, "put-up-block(p%u,ep%u,#%u%s)", p, ep, num, more ? ",more" : ",last");
+          }
+          w.peer_send(peers[p].p, Addr::v4(10, 0, 0, 1, (uint16_t)(5683 + ep)), ref::encode(m, ref::F_UDP));
+          cs.transfers++;
+          break;
+        }
         std::vector<uint8_t> token = {(uint8_t)p, (uint8_t)peers[p].seq++, (uint8_t)kind};
         if (kind == 2) peer_request(p, ep, "sep", con, -1, token, "d=" + std::to_string(t.pick({1, 1}) ? t.range(1, 3000) : t.range(3000, 40000)));
         else if (kind == 3) { peers[p].obs_token = token; peer_request(p, ep, "obs", con, 0, token, ""); }
@@ -720,6 +800,7 @@ int verif_case(const uint8_t *tape, size_t tlen, Info *info) {
       for (auto &kv : by_type) s += " type " + std::to_string(kv.first) + " x" + std::to_string(kv.second);
       fail("after coap_free_context() %zu libcoap object(s) are still allocated:%s", A.live.size(), s.c_str());
     } else if (__lsan_do_recoverable_leak_check()) fail("LeakSanitizer reports memory that is no longer reachable after coap_free_context()");
+    else if (cs.big_given != cs.big_released) fail("%u representations were handed to coap_add_data_large_response(), the release callback ran %u times by the time the context was freed", cs.big_given, cs.big_released);
   }
   if (cs.violated) verdict = VIOLATION;
   A.reset();
